@@ -48,9 +48,9 @@ def node_span(source: str, node: ast.AST):
         first = min(decos, key=lambda d: (d.lineno, d.col_offset))
     start = char_offset(source, first.lineno, first.col_offset)
     if decos:
-        # the '@' precedes the decorator expression (possibly with blanks in between)
+        # the '@' precedes the decorator expression (possibly with blanks, line breaks inside parentheses, and the parentheses themselves in between)
         k = start - 1
-        while k >= 0 and source[k] in " \t":
+        while k >= 0 and source[k] in " \t(\r\n\\\x0c":
             k -= 1
         if k >= 0 and source[k] == "@":
             start = k
